@@ -141,12 +141,14 @@ func (p *Prog) FlatOf(fi *FuncInfo) *Flat {
 }
 
 // Reach returns the set of nodes reachable from the start nodes (inclusive)
-// without entering nodes for which stop returns true (start nodes are always
-// entered) and only along edges accepted by edgeOK (nil = all).
+// without entering nodes for which stop returns true (start nodes included) and only along edges accepted by edgeOK (nil = all).
 func (f *Flat) Reach(start []int, stop func(*GNode) bool, edgeOK func(from *GNode, e Edge) bool) map[int]bool {
 	seen := map[int]bool{}
 	var work []int
 	for _, s := range start {
+		if stop != nil && stop(f.Nodes[s]) {
+			continue
+		}
 		if !seen[s] {
 			seen[s] = true
 			work = append(work, s)
